@@ -1,10 +1,1922 @@
+//! C04 — equality, order and hash are coherent; order is the DNSSEC
+//! canonical order.
+//!
+//! Exhaustive enumeration of closed small domains (DESIGN.md "### C04"):
+//!
+//! * labels: all octet strings of length <= 2 (thorough: <= 3) over the 12
+//!   octets {00 - . @ A Z [ ` a z { FF} plus 12 labels of length 62/63;
+//! * character strings: the same strings plus 3 of length 254/255, in three
+//!   representations (Vec, &[u8], unsized);
+//! * names: all sequences of <= 3 (thorough: <= 4) labels over {a, A, b,
+//!   "a.b" as ONE label, ab}, each as flat `Name<Vec>`, `ParsedName`
+//!   uncompressed in a message, `ParsedName` compressed at every suffix
+//!   (plus a pointer chain and a double pointer), `Chain<RelativeName, Name>`
+//!   split at every boundary;
+//! * record data: the `mc::rgen` compact values, plus for each its
+//!   name-case twin, its all-letters-case twin and its `Unknown`-variant twin
+//!   (what the zone-file reader produces for the RFC 3597 `\#` syntax), as
+//!   `AllRecordData` and `ZoneRecordData`, flat and parsed;
+//! * records: RDATA x 3 owners (a., A., b.a.) x 2 classes x 2 TTLs, flat and
+//!   parsed from a message;
+//! * thorough only: per record type all ordered pairs of the rgen *quick*
+//!   menu product (53 564 values).
+//!
+//! All ordered pairs everywhere; all triples where the domain is small
+//! enough, and everywhere the exact rank test for "is a total preorder".
+//! The oracle is written here from RFC 4034 6.1-6.3 + RFC 6840 5.1.
+
+use domain::base::charstr::CharStr;
+use domain::base::cmp::CanonicalOrd;
+use domain::base::iana::{Class, Rtype};
+use domain::base::name::{
+    Chain, FlattenInto, Label, Name, OwnedLabel, ParsedName, RelativeName, ToName,
+};
+use domain::base::rdata::{ComposeRecordData, ParseAnyRecordData, ParseRecordData, UnknownRecordData};
+use domain::base::record::RecordHeader;
+use domain::base::{Record, Ttl};
+use domain::rdata::{AllRecordData, ZoneRecordData};
 use mc::rgen;
+use mc::*;
+use octseq::Parser;
+use rayon::prelude::*;
+use serde_json::{json, Value};
+use std::cmp::Ordering;
+use std::collections::BTreeMap;
+use std::hash::{Hash, Hasher};
+use std::sync::atomic::{AtomicU64, Ordering as AO};
+use std::sync::Arc;
+
+type Nm = Name<Vec<u8>>;
+type Rd = AllRecordData<Vec<u8>, Nm>;
+type PRd<'a> = AllRecordData<&'a [u8], ParsedName<&'a [u8]>>;
+type ZRd = ZoneRecordData<Vec<u8>, Nm>;
+type PZRd<'a> = ZoneRecordData<&'a [u8], ParsedName<&'a [u8]>>;
+
+const ALPHA: [u8; 12] = [0x00, b'-', b'.', b'@', b'A', b'Z', b'[', b'`', b'a', b'z', b'{', 0xFF];
+
+//------------ recording hasher ------------------------------------------------
+
+/// Records every call made to it: `stream` is the concatenation of all
+/// octets written, `shape` the sequence of (call kind, length).
+#[derive(Default, Clone, PartialEq, Eq, Debug)]
+struct Hs {
+    stream: Vec<u8>,
+    shape: Vec<u8>,
+}
+
+#[derive(Default)]
+struct RecHasher(Hs);
+
+impl RecHasher {
+    fn call(&mut self, tag: u8, b: &[u8]) {
+        self.0.stream.extend_from_slice(b);
+        self.0.shape.push(tag);
+        self.0.shape.extend_from_slice(&(b.len() as u32).to_le_bytes());
+    }
+}
+
+impl Hasher for RecHasher {
+    fn finish(&self) -> u64 {
+        0
+    }
+    fn write(&mut self, b: &[u8]) {
+        self.call(0, b)
+    }
+    fn write_u8(&mut self, i: u8) {
+        self.call(1, &[i])
+    }
+    fn write_u16(&mut self, i: u16) {
+        self.call(2, &i.to_ne_bytes())
+    }
+    fn write_u32(&mut self, i: u32) {
+        self.call(3, &i.to_ne_bytes())
+    }
+    fn write_u64(&mut self, i: u64) {
+        self.call(4, &i.to_ne_bytes())
+    }
+    fn write_u128(&mut self, i: u128) {
+        self.call(5, &i.to_ne_bytes())
+    }
+    fn write_usize(&mut self, i: usize) {
+        self.call(6, &i.to_ne_bytes())
+    }
+    fn write_i8(&mut self, i: i8) {
+        self.call(7, &i.to_ne_bytes())
+    }
+    fn write_i16(&mut self, i: i16) {
+        self.call(8, &i.to_ne_bytes())
+    }
+    fn write_i32(&mut self, i: i32) {
+        self.call(9, &i.to_ne_bytes())
+    }
+    fn write_i64(&mut self, i: i64) {
+        self.call(10, &i.to_ne_bytes())
+    }
+    fn write_i128(&mut self, i: i128) {
+        self.call(11, &i.to_ne_bytes())
+    }
+    fn write_isize(&mut self, i: isize) {
+        self.call(12, &i.to_ne_bytes())
+    }
+}
+
+fn hrec<T: Hash + ?Sized>(t: &T) -> Hs {
+    let mut h = RecHasher::default();
+    t.hash(&mut h);
+    h.0
+}
+
+/// 2x64-bit digest (+ lengths) of a recorded hash input, for the wide
+/// enumeration where the streams themselves (up to 64 KiB each) are not kept.
+#[derive(Clone, Copy, PartialEq, Eq, Debug)]
+struct Hd {
+    s1: u64,
+    s2: u64,
+    slen: usize,
+    p1: u64,
+}
+
+fn fnv2(b: &[u8]) -> u64 {
+    let mut h: u64 = 0x9E37_79B9_7F4A_7C15;
+    for x in b {
+        h = (h ^ (*x as u64)).wrapping_mul(0xff51_afd7_ed55_8ccd).rotate_left(23);
+    }
+    h
+}
+
+fn digest(h: &Hs) -> Hd {
+    Hd { s1: fnv(&h.stream), s2: fnv2(&h.stream), slen: h.stream.len(), p1: fnv(&h.shape) }
+}
+
+//------------ environment -----------------------------------------------------
+
+struct Env {
+    ctx: Arc<Ctx>,
+    stats: Stats,
+    quick: bool,
+    verbose: bool,
+    triples: AtomicU64,
+}
+
+impl Env {
+    fn tier(&self) -> &'static str {
+        if self.quick {
+            "quick"
+        } else {
+            "thorough"
+        }
+    }
+    fn viol(&self, sig: String, what: String, mut case: Value) {
+        if let Some(o) = case.as_object_mut() {
+            o.insert("tier".into(), json!(self.tier()));
+        }
+        if self.verbose {
+            println!("  violation: {sig}: {what}");
+        }
+        self.ctx.violation(&sig, &what, case);
+    }
+    fn say(&self, s: impl FnOnce() -> String) {
+        if self.verbose {
+            println!("{}", s());
+        }
+    }
+}
+
+fn sgn(o: Ordering) -> i8 {
+    match o {
+        Ordering::Less => -1,
+        Ordering::Equal => 0,
+        Ordering::Greater => 1,
+    }
+}
+
+fn ord_s(i: i8) -> &'static str {
+    match i {
+        -1 => "Less",
+        0 => "Equal",
+        1 => "Greater",
+        _ => "?",
+    }
+}
+
+fn lc(b: &[u8]) -> Vec<u8> {
+    b.iter().map(|x| if x.is_ascii_uppercase() { x + 32 } else { *x }).collect()
+}
+
+fn mix(dom: u64, i: usize, j: usize) -> u64 {
+    let mut h = dom ^ 0xcbf29ce484222325;
+    for v in [i as u64, j as u64] {
+        h = (h ^ v).wrapping_mul(0x100000001b3);
+        h ^= h >> 29;
+    }
+    h
+}
+
+/// Restrict a domain to the given original indices (replay).
+fn restrict<T>(all: Vec<T>, only: Option<&[usize]>) -> Vec<(usize, T)> {
+    let mut v: Vec<(usize, T)> = all.into_iter().enumerate().collect();
+    if let Some(o) = only {
+        v.retain(|(i, _)| o.contains(i));
+    }
+    v
+}
+
+//------------ relation laws -----------------------------------------------------
+
+/// An observed (==, cmp) relation over n items.
+struct Rel {
+    n: usize,
+    eq: Vec<bool>,
+    cmp: Vec<i8>,
+}
+
+impl Rel {
+    fn new(n: usize) -> Rel {
+        Rel { n, eq: vec![false; n * n], cmp: vec![0; n * n] }
+    }
+    fn e(&self, i: usize, j: usize) -> bool {
+        self.eq[i * self.n + j]
+    }
+    fn c(&self, i: usize, j: usize) -> i8 {
+        self.cmp[i * self.n + j]
+    }
+}
+
+struct LawCfg<'a> {
+    dom: &'a str,
+    /// name of the order ("cmp" or "canonical_cmp")
+    ord_name: &'a str,
+    /// check ==-related laws (false for a bare order such as canonical_cmp)
+    with_eq: bool,
+    triples: bool,
+    desc: &'a (dyn Fn(usize) -> Value + Sync),
+    /// structural class of a pair, appended to law signatures
+    pair_class: &'a (dyn Fn(usize, usize) -> String + Sync),
+    /// class of an eq-but-hash-differs pair
+    hash_class: &'a (dyn Fn(usize, usize) -> String + Sync),
+}
+
+fn check_laws(env: &Env, cfg: &LawCfg, rel: &Rel, hashes: Option<&[Hs]>) {
+    let n = rel.n;
+    let dom = cfg.dom;
+    let on = cfg.ord_name;
+    let case2 = |law: &str, i: usize, j: usize| json!({"domain": dom, "law": law, "items": [(cfg.desc)(i), (cfg.desc)(j)]});
+    // rank = number of strictly smaller items; a relation with c(i,j) =
+    // -c(j,i) is a total preorder iff c(i,j) == sign(rank(i) - rank(j)).
+    let rank: Vec<usize> = (0..n).into_par_iter().map(|i| (0..n).filter(|&j| rel.c(i, j) > 0).count()).collect();
+    (0..n).into_par_iter().for_each(|i| {
+        if cfg.with_eq && !rel.e(i, i) {
+            env.viol(format!("C04|{dom}|eq-not-reflexive|{}", (cfg.pair_class)(i, i)), "x == x is false".into(), case2("eq-reflexive", i, i));
+        }
+        if rel.c(i, i) != 0 {
+            env.viol(format!("C04|{dom}|{on}-self-not-equal|{}", (cfg.pair_class)(i, i)), format!("x.{on}(x) = {}", ord_s(rel.c(i, i))), case2("cmp-reflexive", i, i));
+        }
+        for j in 0..n {
+            let (e, c) = (rel.e(i, j), rel.c(i, j));
+            if cfg.with_eq {
+                if e != rel.e(j, i) {
+                    env.viol(format!("C04|{dom}|eq-not-symmetric|{}", (cfg.pair_class)(i, j)), format!("a == b is {e} but b == a is {}", !e), case2("eq-symmetric", i, j));
+                }
+                if e != (c == 0) {
+                    let k = if e { format!("eq-but-{on}-{}", ord_s(c)) } else { format!("{on}-equal-but-ne") };
+                    env.viol(format!("C04|{dom}|eq-iff-{on}-equal|{k}|{}", (cfg.pair_class)(i, j)), format!("a == b is {e} but a.{on}(b) is {}", ord_s(c)), case2("eq-iff-cmp-equal", i, j));
+                }
+                if let (true, Some(h)) = (e, hashes) {
+                    if h[i].stream != h[j].stream {
+                        env.viol(
+                            format!("C04|{dom}|eq-implies-hash|hash-input-differs|{}", (cfg.hash_class)(i, j)),
+                            format!("a == b but Hash feeds different octets: {} vs {}", hex(&h[i].stream[..h[i].stream.len().min(64)]), hex(&h[j].stream[..h[j].stream.len().min(64)])),
+                            case2("eq-implies-hash", i, j),
+                        );
+                    } else if h[i].shape != h[j].shape {
+                        env.viol(
+                            format!("C04|{dom}|eq-implies-hash|same-octets-different-hasher-calls|{}", (cfg.hash_class)(i, j)),
+                            "a == b, Hash feeds the same octets but through different Hasher calls (hashers such as FxHasher give different digests)".into(),
+                            case2("eq-implies-hash-shape", i, j),
+                        );
+                    }
+                }
+            }
+            if c != -rel.c(j, i) {
+                env.viol(format!("C04|{dom}|{on}-not-antisymmetric|{}", (cfg.pair_class)(i, j)), format!("a.{on}(b) = {} but b.{on}(a) = {}", ord_s(c), ord_s(rel.c(j, i))), case2("cmp-antisymmetric", i, j));
+            } else {
+                let want = (rank[i] as i64 - rank[j] as i64).signum() as i8;
+                if c != want {
+                    env.viol(
+                        format!("C04|{dom}|{on}-not-a-total-preorder|{}", (cfg.pair_class)(i, j)),
+                        format!("a.{on}(b) = {} but a has {} smaller items and b has {}: the relation is not transitive", ord_s(c), rank[i], rank[j]),
+                        case2("cmp-total-preorder", i, j),
+                    );
+                }
+            }
+        }
+    });
+    if cfg.triples {
+        let bad = AtomicU64::new(0);
+        (0..n).into_par_iter().for_each(|i| {
+            for j in 0..n {
+                let (eij, cij) = (rel.e(i, j), rel.c(i, j));
+                for k in 0..n {
+                    let cjk = rel.c(j, k);
+                    let cik = rel.c(i, k);
+                    let mut fail = None;
+                    if cfg.with_eq && eij && rel.e(j, k) && !rel.e(i, k) {
+                        fail = Some("eq-not-transitive".to_string());
+                    } else if cij <= 0 && cjk <= 0 && (cik > 0 || ((cij < 0 || cjk < 0) && cik >= 0)) {
+                        fail = Some(format!("{on}-not-transitive"));
+                    }
+                    if let Some(f) = fail {
+                        if bad.fetch_add(1, AO::Relaxed) < 64 {
+                            env.viol(
+                                format!("C04|{dom}|{f}|{}", (cfg.pair_class)(i, k)),
+                                format!("a?b = {}, b?c = {}, a?c = {} (== : {}, {}, {})", ord_s(cij), ord_s(cjk), ord_s(cik), eij, rel.e(j, k), rel.e(i, k)),
+                                json!({"domain": dom, "law": f, "items": [(cfg.desc)(i), (cfg.desc)(j), (cfg.desc)(k)]}),
+                            );
+                        }
+                    }
+                }
+            }
+        });
+        env.triples.fetch_add((n as u64).pow(3), AO::Relaxed);
+        env.stats.count_n(&format!("{dom}:{on}:triples"), (n as u64).pow(3));
+    }
+    // vacuity: number of equivalence classes and of distinct hash inputs
+    let mut ranks = rank.clone();
+    ranks.sort();
+    ranks.dedup();
+    env.stats.count_n(&format!("{dom}:{on}:items"), n as u64);
+    env.stats.count_n(&format!("{dom}:{on}:order-classes"), ranks.len() as u64);
+    if let (true, Some(h)) = (cfg.with_eq, hashes) {
+        let mut hs: Vec<&Vec<u8>> = h.iter().map(|x| &x.stream).collect();
+        hs.sort();
+        hs.dedup();
+        env.stats.count_n(&format!("{dom}:distinct-hash-inputs"), hs.len() as u64);
+        // unequal values with identical hash input (allowed; measures how
+        // much the hash distinguishes, e.g. a missing length prefix)
+        let mut coll = 0u64;
+        for i in 0..n {
+            for j in 0..n {
+                if !rel.e(i, j) && h[i].stream == h[j].stream {
+                    coll += 1;
+                }
+            }
+        }
+        env.stats.count_n(&format!("{dom}:unequal-pairs-with-identical-hash-input"), coll);
+    }
+}
+
+//------------ strings over the alphabet ---------------------------------------
+
+fn strings_upto(maxlen: usize) -> Vec<Vec<u8>> {
+    let mut out = Vec::new();
+    let mut buf = Vec::new();
+    for n in 0..=maxlen {
+        for k in 0..pow(ALPHA.len(), n) {
+            nth_string(&ALPHA, n, k, &mut buf);
+            out.push(buf.clone());
+        }
+    }
+    out
+}
+
+fn with_last(c: u8, n: usize, last: u8) -> Vec<u8> {
+    let mut v = vec![c; n];
+    *v.last_mut().unwrap() = last;
+    v
+}
+
+//------------ labels ------------------------------------------------------------
+
+fn label_items(quick: bool) -> Vec<Vec<u8>> {
+    let mut v = strings_upto(if quick { 2 } else { 3 });
+    for l in [62usize, 63] {
+        v.push(vec![b'a'; l]);
+        v.push(vec![b'A'; l]);
+        v.push(with_last(b'a', l, b'b'));
+        v.push(with_last(b'A', l, b'B'));
+        v.push(with_last(b'a', l, b'{'));
+        v.push(with_last(b'a', l, b'Z'));
+    }
+    v
+}
+
+#[derive(Debug, Clone, Copy, PartialEq)]
+struct LabObs {
+    eq: bool,
+    eq_slice: bool,
+    cmp: i8,
+    pcmp: Option<i8>,
+    composed: i8,
+    lc_composed: i8,
+    o_eq: bool,
+    o_cmp: i8,
+    o_pcmp: Option<i8>,
+    lt: bool,
+    le: bool,
+    gt: bool,
+    ge: bool,
+}
+
+fn wire_label(b: &[u8]) -> Vec<u8> {
+    let mut v = vec![b.len() as u8];
+    v.extend_from_slice(b);
+    v
+}
+
+fn dom_labels(env: &Env, only: Option<&[usize]>) {
+    let items = restrict(label_items(env.quick), only);
+    let n = items.len();
+    let desc = |i: usize| json!({"index": items[i].0, "label": hex(&items[i].1)});
+    // unary: construction, hashes, canonical forms
+    let labels: Vec<&Label> = items
+        .iter()
+        .map(|(_, b)| match guard(|| Label::from_slice(b)) {
+            Ok(Ok(l)) => l,
+            other => {
+                eprintln!("MACHINERY: Label::from_slice refused a {}-octet label: {:?}", b.len(), other.map(|r| r.map(|_| ())));
+                std::process::exit(2);
+            }
+        })
+        .collect();
+    let owned: Vec<OwnedLabel> = labels.iter().map(|l| OwnedLabel::from_label(l)).collect();
+    let mut hashes = Vec::with_capacity(n);
+    for i in 0..n {
+        let b = &items[i].1;
+        let r = guard(|| {
+            let h = hrec(labels[i]);
+            let ho = hrec(&owned[i]);
+            let canon = labels[i].to_canonical();
+            let mut cc = Vec::new();
+            labels[i].compose_canonical(&mut cc).unwrap();
+            (h, ho, canon.as_slice().to_vec(), cc)
+        });
+        env.stats.eval();
+        match r {
+            Err(e) => {
+                env.viol(format!("C04|label|panic|{}", panic_class(&e)), e, json!({"domain": "label", "items": [desc(i)]}));
+                hashes.push(Hs::default());
+            }
+            Ok((h, ho, canon, cc)) => {
+                if h != ho {
+                    env.viol("C04|label|representation|OwnedLabel-hash-differs-from-Label-hash".into(), format!("label {}", hex(b)), json!({"domain": "label", "items": [desc(i)]}));
+                }
+                if canon != lc(b) {
+                    env.viol("C04|label|to_canonical-vs-lowercase".into(), format!("to_canonical({}) = {}", hex(b), hex(&canon)), json!({"domain": "label", "items": [desc(i)]}));
+                }
+                if cc != wire_label(&lc(b)) {
+                    env.viol("C04|label|compose_canonical-vs-lowercase-wire".into(), format!("compose_canonical({}) = {}", hex(b), hex(&cc)), json!({"domain": "label", "items": [desc(i)]}));
+                }
+                env.say(|| format!("label[{}] {} hash input {} shape {}", items[i].0, hex(b), hex(&h.stream), hex(&h.shape)));
+                hashes.push(h);
+            }
+        }
+    }
+    let mut rel = Rel::new(n);
+    let rows: Vec<(Vec<bool>, Vec<i8>)> = (0..n)
+        .into_par_iter()
+        .map(|i| {
+            let mut re = vec![false; n];
+            let mut rc = vec![0i8; n];
+            let a = &items[i].1;
+            let (la, wa, lwa) = (lc(a), wire_label(a), wire_label(&lc(a)));
+            for j in 0..n {
+                let b = &items[j].1;
+                let case = || json!({"domain": "label", "items": [desc(i), desc(j)]});
+                let (x, y, ox, oy) = (labels[i], labels[j], &owned[i], &owned[j]);
+                let r = guard(|| LabObs {
+                    eq: x == y,
+                    eq_slice: *x == b[..],
+                    cmp: sgn(x.cmp(y)),
+                    pcmp: x.partial_cmp(y).map(sgn),
+                    composed: sgn(x.composed_cmp(y)),
+                    lc_composed: sgn(x.lowercase_composed_cmp(y)),
+                    o_eq: ox == oy,
+                    o_cmp: sgn(ox.cmp(oy)),
+                    o_pcmp: ox.partial_cmp(oy).map(sgn),
+                    lt: x < y,
+                    le: x <= y,
+                    gt: x > y,
+                    ge: x >= y,
+                });
+                env.stats.eval();
+                if i != j {
+                    env.stats.distinct(mix(1, items[i].0, items[j].0));
+                }
+                let o = match r {
+                    Ok(o) => o,
+                    Err(e) => {
+                        env.viol(format!("C04|label|panic|{}", panic_class(&e)), e, case());
+                        continue;
+                    }
+                };
+                env.say(|| format!("label[{}] {} ? label[{}] {}: {:?}", items[i].0, hex(a), items[j].0, hex(b), o));
+                re[j] = o.eq;
+                rc[j] = o.cmp;
+                let lb = lc(b);
+                let ref_eq = la == lb;
+                let ref_cmp = sgn(la.cmp(&lb));
+                if o.eq != ref_eq {
+                    let k = if ref_eq { "case-twins-unequal" } else { "different-labels-equal" };
+                    env.viol(format!("C04|label|eq-vs-reference|{k}"), format!("{} == {} is {}", hex(a), hex(b), o.eq), case());
+                }
+                if o.cmp != ref_cmp {
+                    env.viol(
+                        format!("C04|label|cmp-vs-rfc4034-6.1|expected-{}-got-{}", ord_s(ref_cmp), ord_s(o.cmp)),
+                        format!("cmp({}, {}) = {}, RFC 4034 6.1 (lower-cased, left-justified octet strings): {}", hex(a), hex(b), ord_s(o.cmp), ord_s(ref_cmp)),
+                        case(),
+                    );
+                }
+                if o.pcmp != Some(o.cmp) || o.lt != (o.cmp < 0) || o.le != (o.cmp <= 0) || o.gt != (o.cmp > 0) || o.ge != (o.cmp >= 0) {
+                    env.viol("C04|label|partial_cmp-and-operators-vs-cmp".into(), format!("{} ? {}: {:?}", hex(a), hex(b), o), case());
+                }
+                if o.eq_slice != o.eq {
+                    env.viol("C04|label|representation|eq-with-octets-slice-differs".into(), format!("{} ? {}: {:?}", hex(a), hex(b), o), case());
+                }
+                if o.o_eq != o.eq || o.o_cmp != o.cmp || o.o_pcmp != o.pcmp {
+                    env.viol("C04|label|representation|OwnedLabel-result-differs-from-Label".into(), format!("{} ? {}: {:?}", hex(a), hex(b), o), case());
+                }
+                let ref_comp = sgn(wa.cmp(&wire_label(b)));
+                if o.composed != ref_comp {
+                    env.viol("C04|label|composed_cmp-vs-wire-octets".into(), format!("composed_cmp({}, {}) = {}, wire octets order {}", hex(a), hex(b), ord_s(o.composed), ord_s(ref_comp)), case());
+                }
+                let ref_lcomp = sgn(lwa.cmp(&wire_label(&lb)));
+                if o.lc_composed != ref_lcomp {
+                    env.viol("C04|label|lowercase_composed_cmp-vs-canonical-wire-octets".into(), format!("lowercase_composed_cmp({}, {}) = {}, canonical wire octets order {}", hex(a), hex(b), ord_s(o.lc_composed), ord_s(ref_lcomp)), case());
+                }
+            }
+            (re, rc)
+        })
+        .collect();
+    for (i, (re, rc)) in rows.into_iter().enumerate() {
+        rel.eq[i * n..(i + 1) * n].copy_from_slice(&re);
+        rel.cmp[i * n..(i + 1) * n].copy_from_slice(&rc);
+    }
+    env.stats.sample(12, || json!({"domain": "label", "a": hex(&items[n / 3].1), "b": hex(&items[n / 2].1), "eq": rel.e(n / 3, n / 2), "cmp": ord_s(rel.c(n / 3, n / 2))}));
+    let cls = |_: usize, _: usize| "-".to_string();
+    check_laws(env, &LawCfg { dom: "label", ord_name: "cmp", with_eq: true, triples: true, desc: &desc, pair_class: &cls, hash_class: &cls }, &rel, Some(&hashes));
+}
+
+//------------ character strings ------------------------------------------------------
+
+fn charstr_items(quick: bool) -> Vec<Vec<u8>> {
+    let mut v = strings_upto(if quick { 2 } else { 3 });
+    v.push(vec![b'a'; 255]);
+    v.push(vec![b'A'; 255]);
+    v.push(vec![b'a'; 254]);
+    v
+}
+
+#[derive(Debug, Clone, Copy, PartialEq)]
+struct CsObs {
+    eq_vv: bool,
+    eq_vs: bool,
+    eq_sv: bool,
+    eq_uu: bool,
+    eq_v_octets: bool,
+    cmp_vv: i8,
+    cmp_ss: i8,
+    cmp_uu: i8,
+    pcmp_vs: Option<i8>,
+    pcmp_sv: Option<i8>,
+    pcmp_vv: Option<i8>,
+    can_vv: i8,
+    can_vs: i8,
+    can_sv: i8,
+    can_uu: i8,
+}
+
+fn dom_charstrs(env: &Env, only: Option<&[usize]>) {
+    let items = restrict(charstr_items(env.quick), only);
+    let n = items.len();
+    let desc = |i: usize| json!({"index": items[i].0, "charstr": hex(&items[i].1)});
+    fn mk<'a>(b: &'a Vec<u8>) -> (CharStr<Vec<u8>>, CharStr<&'a [u8]>, &'a CharStr<[u8]>) {
+        match guard(|| (CharStr::from_octets(b.clone()), CharStr::from_octets(b.as_slice()), CharStr::from_slice(b))) {
+            Ok((Ok(v), Ok(s), Ok(u))) => (v, s, u),
+            _ => {
+                eprintln!("MACHINERY: CharStr constructor refused {} octets", b.len());
+                std::process::exit(2);
+            }
+        }
+    }
+    let reps: Vec<_> = items.iter().map(|(_, b)| mk(b)).collect();
+    let mut hashes = Vec::with_capacity(n);
+    for i in 0..n {
+        let (v, s, u) = &reps[i];
+        env.stats.eval();
+        match guard(|| (hrec(v), hrec(s), hrec(*u))) {
+            Err(e) => {
+                env.viol(format!("C04|charstr|panic|{}", panic_class(&e)), e, json!({"domain": "charstr", "items": [desc(i)]}));
+                hashes.push(Hs::default());
+            }
+            Ok((hv, hs, hu)) => {
+                if hv != hs || hv != hu {
+                    env.viol("C04|charstr|representation|hash-differs-between-octets-types".into(), hex(&items[i].1), json!({"domain": "charstr", "items": [desc(i)]}));
+                }
+                env.say(|| format!("charstr[{}] {} hash input {}", items[i].0, hex(&items[i].1), hex(&hv.stream)));
+                hashes.push(hv);
+            }
+        }
+    }
+    let mut rel = Rel::new(n);
+    let rows: Vec<(Vec<bool>, Vec<i8>)> = (0..n)
+        .into_par_iter()
+        .map(|i| {
+            let mut re = vec![false; n];
+            let mut rc = vec![0i8; n];
+            let a = &items[i].1;
+            let (la, wa) = (lc(a), wire_label(a));
+            for j in 0..n {
+                let b = &items[j].1;
+                let case = || json!({"domain": "charstr", "items": [desc(i), desc(j)]});
+                let ((v1, s1, u1), (v2, s2, u2)) = (&reps[i], &reps[j]);
+                let r = guard(|| CsObs {
+                    eq_vv: v1 == v2,
+                    eq_vs: v1 == s2,
+                    eq_sv: s1 == v2,
+                    eq_uu: *u1 == *u2,
+                    eq_v_octets: *v1 == b[..],
+                    cmp_vv: sgn(v1.cmp(v2)),
+                    cmp_ss: sgn(s1.cmp(s2)),
+                    cmp_uu: sgn(u1.cmp(u2)),
+                    pcmp_vs: v1.partial_cmp(s2).map(sgn),
+                    pcmp_sv: s1.partial_cmp(v2).map(sgn),
+                    pcmp_vv: v1.partial_cmp(v2).map(sgn),
+                    can_vv: sgn(v1.canonical_cmp(v2)),
+                    can_vs: sgn(v1.canonical_cmp(s2)),
+                    can_sv: sgn(s1.canonical_cmp(v2)),
+                    can_uu: sgn(u1.canonical_cmp(*u2)),
+                });
+                env.stats.eval();
+                if i != j {
+                    env.stats.distinct(mix(2, items[i].0, items[j].0));
+                }
+                let o = match r {
+                    Ok(o) => o,
+                    Err(e) => {
+                        env.viol(format!("C04|charstr|panic|{}", panic_class(&e)), e, case());
+                        continue;
+                    }
+                };
+                env.say(|| format!("charstr[{}] {} ? charstr[{}] {}: {:?}", items[i].0, hex(a), items[j].0, hex(b), o));
+                re[j] = o.eq_vv;
+                rc[j] = o.cmp_vv;
+                let lb = lc(b);
+                let ref_eq = la == lb;
+                let ref_cmp = sgn(la.cmp(&lb));
+                if o.eq_vv != ref_eq {
+                    let k = if ref_eq { "case-twins-unequal" } else { "different-strings-equal" };
+                    env.viol(format!("C04|charstr|eq-vs-reference|{k}"), format!("{} == {} is {}", hex(a), hex(b), o.eq_vv), case());
+                }
+                if o.cmp_vv != ref_cmp {
+                    env.viol(format!("C04|charstr|cmp-vs-lowercased-octets|expected-{}-got-{}", ord_s(ref_cmp), ord_s(o.cmp_vv)), format!("cmp({}, {}) = {}", hex(a), hex(b), ord_s(o.cmp_vv)), case());
+                }
+                if [o.eq_vs, o.eq_sv, o.eq_uu, o.eq_v_octets] != [o.eq_vv; 4] {
+                    env.viol("C04|charstr|representation|eq-differs-between-octets-types".into(), format!("{} ? {}: {:?}", hex(a), hex(b), o), case());
+                }
+                if [o.cmp_ss, o.cmp_uu] != [o.cmp_vv; 2] || [o.pcmp_vs, o.pcmp_sv, o.pcmp_vv] != [Some(o.cmp_vv); 3] {
+                    env.viol("C04|charstr|representation|cmp-or-partial_cmp-differs-between-octets-types".into(), format!("{} ? {}: {:?}", hex(a), hex(b), o), case());
+                }
+                let ref_can = sgn(wa.cmp(&wire_label(b)));
+                if o.can_vv != ref_can {
+                    env.viol("C04|charstr|canonical_cmp-vs-wire-octets".into(), format!("canonical_cmp({}, {}) = {}, wire octets (length octet first) order {}", hex(a), hex(b), ord_s(o.can_vv), ord_s(ref_can)), case());
+                }
+                if [o.can_vs, o.can_sv, o.can_uu] != [o.can_vv; 3] {
+                    env.viol("C04|charstr|representation|canonical_cmp-differs-between-octets-types".into(), format!("{} ? {}: {:?}", hex(a), hex(b), o), case());
+                }
+            }
+            (re, rc)
+        })
+        .collect();
+    for (i, (re, rc)) in rows.into_iter().enumerate() {
+        rel.eq[i * n..(i + 1) * n].copy_from_slice(&re);
+        rel.cmp[i * n..(i + 1) * n].copy_from_slice(&rc);
+    }
+    env.stats.sample(12, || json!({"domain": "charstr", "a": hex(&items[n / 3].1), "b": hex(&items[n / 2].1), "eq": rel.e(n / 3, n / 2), "cmp": ord_s(rel.c(n / 3, n / 2))}));
+    let cls = |_: usize, _: usize| "-".to_string();
+    check_laws(env, &LawCfg { dom: "charstr", ord_name: "cmp", with_eq: true, triples: true, desc: &desc, pair_class: &cls, hash_class: &cls }, &rel, Some(&hashes));
+}
+
+//------------ names -----------------------------------------------------------------
+
+fn name_label_menu() -> Vec<Vec<u8>> {
+    vec![b"a".to_vec(), b"A".to_vec(), b"b".to_vec(), b"a.b".to_vec(), b"ab".to_vec()]
+}
+
+/// All label sequences of length <= depth over the menu.
+fn name_items(depth: usize) -> Vec<Vec<Vec<u8>>> {
+    let menu = name_label_menu();
+    let mut out = Vec::new();
+    let mut buf: Vec<Vec<u8>> = Vec::new();
+    for n in 0..=depth {
+        for k in 0..pow(menu.len(), n) {
+            nth_string(&menu, n, k, &mut buf);
+            out.push(buf.clone());
+        }
+    }
+    out
+}
+
+fn labels_wire(labels: &[Vec<u8>]) -> Vec<u8> {
+    let mut w = Vec::new();
+    for l in labels {
+        w.push(l.len() as u8);
+        w.extend_from_slice(l);
+    }
+    w
+}
+
+fn name_wire(labels: &[Vec<u8>]) -> Vec<u8> {
+    let mut w = labels_wire(labels);
+    w.push(0);
+    w
+}
+
+fn ptr(target: usize) -> [u8; 2] {
+    [0xC0 | (target >> 8) as u8, target as u8]
+}
+
+/// How a representation of a name is built.
+struct RepSpec {
+    name: usize,
+    kind: String,
+    /// message octets and position of the name (parsed kinds)
+    msg: Vec<u8>,
+    pos: usize,
+    /// split position (chain kind)
+    split: Option<usize>,
+    flat: bool,
+}
+
+fn rep_specs(name: usize, labels: &[Vec<u8>]) -> Vec<RepSpec> {
+    let k = labels.len();
+    let mut out = Vec::new();
+    let spec = |kind: String, msg: Vec<u8>, pos: usize, split: Option<usize>, flat: bool| RepSpec { name, kind, msg, pos, split, flat };
+    out.push(spec("flat".into(), vec![], 0, None, true));
+    // uncompressed inside a message, after a 12 octet header
+    let mut m = vec![0u8; 12];
+    m.extend_from_slice(&name_wire(labels));
+    m.extend_from_slice(&[0, 1, 0, 1]);
+    out.push(spec("parsed-uncompressed".into(), m, 12, None, false));
+    // compressed at every suffix: the suffix labels[s..] is stored at 12,
+    // the name is labels[..s] followed by a pointer to 12
+    for s in 0..=k {
+        let mut m = vec![0u8; 12];
+        m.extend_from_slice(&name_wire(&labels[s..]));
+        let pos = m.len();
+        m.extend_from_slice(&labels_wire(&labels[..s]));
+        m.extend_from_slice(&ptr(12));
+        m.extend_from_slice(&[0, 1, 0, 1]);
+        out.push(spec(format!("parsed-compressed-at-{s}"), m, pos, None, false));
+    }
+    // every label followed by a pointer to the next one
+    if k >= 2 {
+        let mut m = vec![0u8; 12];
+        m.push(0);
+        let mut next = 12;
+        for l in labels.iter().rev() {
+            let here = m.len();
+            m.push(l.len() as u8);
+            m.extend_from_slice(l);
+            m.extend_from_slice(&ptr(next));
+            next = here;
+        }
+        out.push(spec("parsed-pointer-per-label".into(), m, next, None, false));
+    }
+    // pointer to a pointer to the flat name
+    {
+        let mut m = vec![0u8; 12];
+        m.extend_from_slice(&name_wire(labels));
+        let q = m.len();
+        m.extend_from_slice(&ptr(12));
+        let r = m.len();
+        m.extend_from_slice(&ptr(q));
+        out.push(spec("parsed-double-pointer".into(), m, r, None, false));
+    }
+    for s in 0..=k {
+        out.push(spec(format!("chain-split-at-{s}"), vec![], 0, Some(s), false));
+    }
+    out
+}
+
+type Ch = Chain<RelativeName<Vec<u8>>, Nm>;
+
+enum Rep<'a> {
+    Flat(Nm),
+    Parsed(ParsedName<&'a [u8]>),
+    Chain(Ch),
+}
+
+/// ToName operations available for every pair of representations.
+macro_rules! any_pair {
+    ($x:expr, $y:expr, |$a:ident, $b:ident| $body:expr) => {
+        match ($x, $y) {
+            (Rep::Flat($a), Rep::Flat($b)) => $body,
+            (Rep::Flat($a), Rep::Parsed($b)) => $body,
+            (Rep::Flat($a), Rep::Chain($b)) => $body,
+            (Rep::Parsed($a), Rep::Flat($b)) => $body,
+            (Rep::Parsed($a), Rep::Parsed($b)) => $body,
+            (Rep::Parsed($a), Rep::Chain($b)) => $body,
+            (Rep::Chain($a), Rep::Flat($b)) => $body,
+            (Rep::Chain($a), Rep::Parsed($b)) => $body,
+            (Rep::Chain($a), Rep::Chain($b)) => $body,
+        }
+    };
+}
+
+/// Operator traits exist with `Name` and `ParsedName` on the left only.
+macro_rules! left_pair {
+    ($x:expr, $y:expr, |$a:ident, $b:ident| $body:expr) => {
+        match ($x, $y) {
+            (Rep::Flat($a), Rep::Flat($b)) => Some($body),
+            (Rep::Flat($a), Rep::Parsed($b)) => Some($body),
+            (Rep::Flat($a), Rep::Chain($b)) => Some($body),
+            (Rep::Parsed($a), Rep::Flat($b)) => Some($body),
+            (Rep::Parsed($a), Rep::Parsed($b)) => Some($body),
+            (Rep::Parsed($a), Rep::Chain($b)) => Some($body),
+            (Rep::Chain(_), _) => None,
+        }
+    };
+}
+
+#[derive(Debug, Clone, Copy, PartialEq)]
+struct NameObs {
+    name_eq: bool,
+    name_cmp: i8,
+    composed: i8,
+    lc_composed: i8,
+    /// ==, partial_cmp, canonical_cmp, <, <=, >, >= (left is Name or ParsedName)
+    ops: Option<(bool, Option<i8>, i8, bool, bool, bool, bool)>,
+    /// Ord::cmp (same type on both sides)
+    ord: Option<i8>,
+}
+
+fn observe_names(x: &Rep, y: &Rep) -> NameObs {
+    let (name_eq, name_cmp, composed, lc_composed) = any_pair!(x, y, |a, b| (a.name_eq(b), sgn(a.name_cmp(b)), sgn(a.composed_cmp(b)), sgn(a.lowercase_composed_cmp(b))));
+    let ops = left_pair!(x, y, |a, b| (a == b, a.partial_cmp(b).map(sgn), sgn(a.canonical_cmp(b)), a < b, a <= b, a > b, a >= b));
+    let ord = match (x, y) {
+        (Rep::Flat(a), Rep::Flat(b)) => Some(sgn(a.cmp(b))),
+        (Rep::Parsed(a), Rep::Parsed(b)) => Some(sgn(a.cmp(b))),
+        _ => None,
+    };
+    NameObs { name_eq, name_cmp, composed, lc_composed, ops, ord }
+}
+
+fn dom_names(env: &Env, depth: usize, rep_triples: bool, dom_id: u64, only: Option<&[usize]>) {
+    let names = name_items(depth);
+    let specs_all: Vec<RepSpec> = names.iter().enumerate().flat_map(|(i, l)| rep_specs(i, l)).collect();
+    let specs = restrict(specs_all, only);
+    let n = specs.len();
+    let dom = "name";
+    let desc = |i: usize| {
+        let s = &specs[i].1;
+        json!({"index": specs[i].0, "depth": depth, "labels": names[s.name].iter().map(|l| String::from_utf8_lossy(l).to_string()).collect::<Vec<_>>(), "representation": s.kind, "message": hex(&s.msg), "pos": s.pos})
+    };
+    // build the library values
+    let mut reps: Vec<Rep> = Vec::with_capacity(n);
+    for (i, (_, s)) in specs.iter().enumerate() {
+        let labels = &names[s.name];
+        env.stats.eval();
+        let r: Result<Result<Rep, String>, String> = guard(|| {
+            if s.flat {
+                Name::from_octets(name_wire(labels)).map(Rep::Flat).map_err(|e| e.to_string())
+            } else if let Some(sp) = s.split {
+                let left = RelativeName::from_octets(labels_wire(&labels[..sp])).map_err(|e| e.to_string())?;
+                let right = Name::from_octets(name_wire(&labels[sp..])).map_err(|e| e.to_string())?;
+                left.chain(right).map(Rep::Chain).map_err(|e| e.to_string())
+            } else {
+                let mut p = Parser::from_ref(s.msg.as_slice());
+                p.advance(s.pos).map_err(|e| e.to_string())?;
+                let pn = ParsedName::parse(&mut p).map_err(|e| e.to_string())?;
+                Ok(Rep::Parsed(pn))
+            }
+        });
+        match r {
+            Ok(Ok(rep)) => reps.push(rep),
+            Ok(Err(e)) => {
+                env.viol(format!("C04|name|representation-cannot-be-built|{}", s.kind.trim_end_matches(char::is_numeric)), e, json!({"domain": dom, "depth": depth, "items": [desc(i)]}));
+                reps.push(Rep::Flat(Name::root_vec()));
+            }
+            Err(e) => {
+                env.viol(format!("C04|name|panic|{}", panic_class(&e)), e, json!({"domain": dom, "depth": depth, "items": [desc(i)]}));
+                reps.push(Rep::Flat(Name::root_vec()));
+            }
+        }
+    }
+    *env.stats.counters.lock().unwrap().entry(format!("name(depth{depth}):names")).or_insert(0) = names.len() as u64;
+    // vacuity: the compressed kinds must actually be compressed
+    for (i, r) in reps.iter().enumerate() {
+        if let Rep::Parsed(p) = r {
+            let k = &specs[i].1.kind;
+            env.stats.count(&format!("name(depth{depth}):{}:{}", k.trim_end_matches(char::is_numeric), if p.is_compressed() { "is_compressed" } else { "flat-slice-path" }));
+        }
+    }
+    // unary: hash inputs (Name and ParsedName only; Chain has no Hash)
+    let hashes: Vec<Option<Hs>> = reps
+        .iter()
+        .enumerate()
+        .map(|(i, r)| {
+            let h = guard(|| match r {
+                Rep::Flat(a) => Some(hrec(a)),
+                Rep::Parsed(a) => Some(hrec(a)),
+                Rep::Chain(_) => None,
+            });
+            match h {
+                Ok(h) => {
+                    env.say(|| format!("name[{}] {} hash input {:?}", specs[i].0, desc(i), h.as_ref().map(|h| hex(&h.stream))));
+                    h
+                }
+                Err(e) => {
+                    env.viol(format!("C04|name|panic|{}", panic_class(&e)), e, json!({"domain": dom, "depth": depth, "items": [desc(i)]}));
+                    None
+                }
+            }
+        })
+        .collect();
+    // reference keys
+    let lcl: Vec<Vec<Vec<u8>>> = names.iter().map(|l| l.iter().rev().map(|x| lc(x)).collect()).collect();
+    let wires: Vec<Vec<u8>> = names.iter().map(|l| name_wire(l)).collect();
+    let lwires: Vec<Vec<u8>> = names.iter().map(|l| name_wire(&l.iter().map(|x| lc(x)).collect::<Vec<_>>())).collect();
+    let mut rel = Rel::new(n);
+    let track_pairs = n * n <= 6_000_000;
+    let rows: Vec<(Vec<bool>, Vec<i8>)> = (0..n)
+        .into_par_iter()
+        .map(|i| {
+            let mut re = vec![false; n];
+            let mut rc = vec![0i8; n];
+            let ni = specs[i].1.name;
+            for j in 0..n {
+                let nj = specs[j].1.name;
+                let case = || json!({"domain": dom, "depth": depth, "items": [desc(i), desc(j)]});
+                let r = guard(|| observe_names(&reps[i], &reps[j]));
+                env.stats.eval();
+                if i != j {
+                    if track_pairs {
+                        env.stats.distinct(mix(dom_id, specs[i].0, specs[j].0));
+                    } else if j == 0 {
+                        env.stats.distinct(mix(dom_id, specs[i].0, usize::MAX));
+                    }
+                }
+                let o = match r {
+                    Ok(o) => o,
+                    Err(e) => {
+                        env.viol(format!("C04|name|panic|{}", panic_class(&e)), e, case());
+                        continue;
+                    }
+                };
+                env.say(|| format!("name[{}] ? name[{}]: {:?}", specs[i].0, specs[j].0, o));
+                re[j] = o.name_eq;
+                rc[j] = o.name_cmp;
+                let kinds = || format!("{}-vs-{}", specs[i].1.kind.trim_end_matches(|c: char| c.is_numeric() || c == '-'), specs[j].1.kind.trim_end_matches(|c: char| c.is_numeric() || c == '-'));
+                let ref_eq = lcl[ni] == lcl[nj];
+                let ref_cmp = sgn(lcl[ni].cmp(&lcl[nj]));
+                if o.name_eq != ref_eq {
+                    let k = if ref_eq { "equal-names-unequal" } else { "different-names-equal" };
+                    env.viol(format!("C04|name|name_eq-vs-reference|{k}|{}", kinds()), format!("name_eq = {}", o.name_eq), case());
+                }
+                if o.name_cmp != ref_cmp {
+                    env.viol(
+                        format!("C04|name|name_cmp-vs-rfc4034-6.1|{}", kinds()),
+                        format!("name_cmp = {}, RFC 4034 6.1 canonical name order says {}", ord_s(o.name_cmp), ord_s(ref_cmp)),
+                        case(),
+                    );
+                }
+                if let Some((eq, pc, cc, lt, le, gt, ge)) = o.ops {
+                    let c = o.name_cmp;
+                    if eq != o.name_eq || pc != Some(c) || cc != c || lt != (c < 0) || le != (c <= 0) || gt != (c > 0) || ge != (c >= 0) {
+                        env.viol(format!("C04|name|operators-vs-name_eq/name_cmp|{}", kinds()), format!("{o:?}"), case());
+                    }
+                }
+                if let Some(c) = o.ord {
+                    if c != o.name_cmp {
+                        env.viol(format!("C04|name|Ord::cmp-vs-name_cmp|{}", kinds()), format!("{o:?}"), case());
+                    }
+                }
+                let ref_comp = sgn(wires[ni].cmp(&wires[nj]));
+                if o.composed != ref_comp {
+                    env.viol(format!("C04|name|composed_cmp-vs-wire-octets|{}", kinds()), format!("composed_cmp = {}, wire octets order {}", ord_s(o.composed), ord_s(ref_comp)), case());
+                }
+                let ref_lcomp = sgn(lwires[ni].cmp(&lwires[nj]));
+                if o.lc_composed != ref_lcomp {
+                    env.viol(format!("C04|name|lowercase_composed_cmp-vs-canonical-wire-octets|{}", kinds()), format!("lowercase_composed_cmp = {}, canonical wire octets order {}", ord_s(o.lc_composed), ord_s(ref_lcomp)), case());
+                }
+                // equal names hash equal whatever the representation
+                if o.name_eq {
+                    if let (Some(h1), Some(h2)) = (&hashes[i], &hashes[j]) {
+                        if h1.stream != h2.stream {
+                            env.viol(format!("C04|name|eq-implies-hash|hash-input-differs|{}", kinds()), format!("{} vs {}", hex(&h1.stream), hex(&h2.stream)), case());
+                        } else if h1.shape != h2.shape {
+                            env.viol(format!("C04|name|eq-implies-hash|same-octets-different-hasher-calls|{}", kinds()), format!("{} vs {}", hex(&h1.shape), hex(&h2.shape)), case());
+                        }
+                    }
+                }
+            }
+            (re, rc)
+        })
+        .collect();
+    for (i, (re, rc)) in rows.into_iter().enumerate() {
+        rel.eq[i * n..(i + 1) * n].copy_from_slice(&re);
+        rel.cmp[i * n..(i + 1) * n].copy_from_slice(&rc);
+    }
+    if n > 2 {
+        env.stats.sample(12, || json!({"domain": dom, "a": desc(n / 3), "b": desc(n / 2), "name_eq": rel.e(n / 3, n / 2), "name_cmp": ord_s(rel.c(n / 3, n / 2))}));
+    }
+    let cls = |i: usize, j: usize| format!("{}-vs-{}", specs[i].1.kind.trim_end_matches(|c: char| c.is_numeric() || c == '-'), specs[j].1.kind.trim_end_matches(|c: char| c.is_numeric() || c == '-'));
+    let dn = format!("name(depth{depth})");
+    check_laws(env, &LawCfg { dom: "name", ord_name: "name_cmp", with_eq: true, triples: rep_triples, desc: &desc, pair_class: &cls, hash_class: &cls }, &rel, None);
+    // all triples of flat names
+    let flat_idx: Vec<usize> = (0..n).filter(|&i| specs[i].1.flat).collect();
+    let m = flat_idx.len();
+    let mut frel = Rel::new(m);
+    for (a, &i) in flat_idx.iter().enumerate() {
+        for (b, &j) in flat_idx.iter().enumerate() {
+            frel.eq[a * m + b] = rel.e(i, j);
+            frel.cmp[a * m + b] = rel.c(i, j);
+        }
+    }
+    let fh: Vec<Hs> = flat_idx.iter().map(|&i| hashes[i].clone().unwrap_or_default()).collect();
+    let fdesc = |a: usize| desc(flat_idx[a]);
+    let fcls = |_: usize, _: usize| "flat-vs-flat".to_string();
+    check_laws(env, &LawCfg { dom: "name-flat", ord_name: "cmp", with_eq: true, triples: true, desc: &fdesc, pair_class: &fcls, hash_class: &fcls }, &frel, Some(&fh));
+    let _ = dn;
+}
+
+//------------ record data -------------------------------------------------------------
+
+/// RFC 4034 6.2 item 3 with RFC 6840 5.1: the types whose embedded names are
+/// lower-cased in the canonical form (NSEC withdrawn; HINFO has no names).
+const CANONICAL_LOWERCASE: &[u16] = &[
+    2, 3, 4, 5, 6, 7, 8, 9, 12, 14, 15, 17, 18, 21, 24, 26, 30, 35, 36, 33, 39, 38, 46,
+];
+
+fn map_names(wire: &[u8], names: &[(usize, usize)], f: impl Fn(u8) -> u8) -> Vec<u8> {
+    let mut out = wire.to_vec();
+    for &(off, len) in names {
+        let mut p = off;
+        while p < off + len {
+            let l = out[p] as usize;
+            for b in &mut out[p + 1..p + 1 + l] {
+                *b = f(*b);
+            }
+            p += 1 + l;
+        }
+    }
+    out
+}
+
+fn flip(b: u8) -> u8 {
+    if b.is_ascii_alphabetic() {
+        b ^ 0x20
+    } else {
+        b
+    }
+}
+
+fn names_valid(wire: &[u8], names: &[(usize, usize)]) -> bool {
+    names.iter().all(|&(off, len)| {
+        let mut p = off;
+        loop {
+            let Some(&l) = wire.get(p) else { return false };
+            if l == 0 {
+                return p + 1 == off + len;
+            }
+            if l > 63 {
+                return false;
+            }
+            p += 1 + l as usize;
+            if p >= off + len {
+                return false;
+            }
+        }
+    })
+}
+
+#[derive(Clone)]
+struct RMeta {
+    mnemonic: String,
+    rtype: u16,
+    /// compact | name-case-twin | letter-case-twin | unknown-variant
+    origin: &'static str,
+    desc: String,
+    wire: Vec<u8>,
+    names: Vec<(usize, usize)>,
+    /// acceptable canonical wire forms (RFC 4034 6.2); two alternatives for
+    /// an `Unknown`-variant value of a type on the lower-casing list
+    canon: Vec<Vec<u8>>,
+    /// wire with every embedded name lower-cased (equality must not depend
+    /// on the case of names); for the opaque variant the wire itself
+    name_lc: Vec<u8>,
+    unknown_variant: bool,
+}
+
+fn parse_flat(rtype: u16, wire: &[u8]) -> Option<Rd> {
+    guard(|| {
+        let mut p = Parser::from_ref(wire);
+        let d = PRd::parse_any_rdata(Rtype::from_int(rtype), &mut p).ok()?;
+        if p.remaining() != 0 {
+            return None;
+        }
+        let r: Result<Rd, std::convert::Infallible> = d.try_flatten_into();
+        r.ok()
+    })
+    .ok()
+    .flatten()
+}
+
+fn compose_plain<D: ComposeRecordData>(d: &D) -> Option<Vec<u8>> {
+    guard(|| {
+        let mut t = Vec::new();
+        d.compose_rdata(&mut t).ok().map(|_| t)
+    })
+    .ok()
+    .flatten()
+}
+
+fn compose_canon<D: ComposeRecordData>(d: &D) -> Result<Vec<u8>, String> {
+    guard(|| {
+        let mut t = Vec::new();
+        d.compose_canonical_rdata(&mut t).map(|_| t).map_err(|_| "append error".to_string())
+    })
+    .and_then(|r| r)
+}
+
+fn meta_of(v: &rgen::Value, origin: &'static str, wire: Vec<u8>, unknown_variant: bool) -> RMeta {
+    let lowered = map_names(&wire, &v.names, |b| b.to_ascii_lowercase());
+    let listed = CANONICAL_LOWERCASE.contains(&v.rtype);
+    let canon = if unknown_variant {
+        if listed && lowered != wire {
+            vec![wire.clone(), lowered.clone()]
+        } else {
+            vec![wire.clone()]
+        }
+    } else if listed {
+        vec![lowered.clone()]
+    } else {
+        vec![wire.clone()]
+    };
+    RMeta {
+        mnemonic: v.mnemonic.to_string(),
+        rtype: v.rtype,
+        origin,
+        desc: v.desc.clone(),
+        name_lc: if unknown_variant { wire.clone() } else { lowered },
+        wire,
+        names: v.names.clone(),
+        canon,
+        unknown_variant,
+    }
+}
+
+/// The RDATA items: compact values and their derived twins.
+fn rdata_items(env: &Env, with_unknown: bool) -> (Vec<RMeta>, Vec<Rd>) {
+    let (vals, st) = rgen::values_ex(rgen::Tier::Compact);
+    if !st.anomalies.is_empty() {
+        env.ctx.note(format!("rgen compact anomalies: {:?}", st.anomalies));
+    }
+    let mut metas = Vec::new();
+    let mut datas = Vec::new();
+    let mut seen: std::collections::HashSet<(u16, Vec<u8>, bool)> = Default::default();
+    for v in &vals {
+        if seen.insert((v.rtype, v.wire.clone(), false)) {
+            metas.push(meta_of(v, "compact", v.wire.clone(), false));
+            datas.push(v.data.clone());
+        }
+    }
+    for v in &vals {
+        // names with the case of every letter flipped
+        let w = map_names(&v.wire, &v.names, flip);
+        if w != v.wire && !seen.contains(&(v.rtype, w.clone(), false)) {
+            match parse_flat(v.rtype, &w) {
+                Some(d) => {
+                    seen.insert((v.rtype, w.clone(), false));
+                    metas.push(meta_of(v, "name-case-twin", w, false));
+                    datas.push(d);
+                }
+                None => env.stats.count("rdata:name-case-twin-not-parseable"),
+            }
+        }
+        // every ASCII letter of the RDATA flipped (character strings, tags)
+        let w: Vec<u8> = v.wire.iter().map(|b| flip(*b)).collect();
+        if w != v.wire && !seen.contains(&(v.rtype, w.clone(), false)) {
+            match parse_flat(v.rtype, &w) {
+                Some(d) if compose_plain(&d).as_deref() == Some(&w[..]) && names_valid(&w, &v.names) => {
+                    seen.insert((v.rtype, w.clone(), false));
+                    metas.push(meta_of(v, "letter-case-twin", w, false));
+                    datas.push(d);
+                }
+                _ => env.stats.count("rdata:letter-case-twin-skipped"),
+            }
+        }
+    }
+    if with_unknown {
+        // the same RDATA held in the `Unknown` variant (RFC 3597 `\#` form)
+        for v in &vals {
+            if matches!(v.data, AllRecordData::Unknown(_)) || matches!(v.data, AllRecordData::Opt(_)) {
+                continue;
+            }
+            if !seen.insert((v.rtype, v.wire.clone(), true)) {
+                continue;
+            }
+            if let Ok(Ok(u)) = guard(|| UnknownRecordData::from_octets(Rtype::from_int(v.rtype), v.wire.clone())) {
+                metas.push(meta_of(v, "unknown-variant", v.wire.clone(), true));
+                datas.push(AllRecordData::Unknown(u));
+            }
+        }
+    }
+    (metas, datas)
+}
+
+#[derive(Debug, Clone, Copy, PartialEq)]
+struct RdObs {
+    eq: bool,
+    cmp: i8,
+    pcmp: Option<i8>,
+    can: i8,
+    // parsed on one or both sides: (==, partial_cmp, canonical_cmp)
+    pf: Option<(bool, Option<i8>, i8)>,
+    fp: Option<(bool, Option<i8>, i8)>,
+    pp: Option<(bool, Option<i8>, i8, i8)>,
+}
+
+fn rd_pair_class(m: &[RMeta], i: usize, j: usize) -> String {
+    let (a, b) = (&m[i], &m[j]);
+    if a.rtype != b.rtype {
+        "cross-type".into()
+    } else if a.unknown_variant != b.unknown_variant {
+        "unknown-variant-vs-typed-variant-of-same-rtype".into()
+    } else if a.unknown_variant {
+        "unknown-variant-of-known-rtype".into()
+    } else {
+        a.mnemonic.clone()
+    }
+}
+
+fn rdata_domain<D, P>(env: &Env, dom: &str, dom_id: u64, idx: &[usize], metas: &[RMeta], flat: &[D], parsed: &[Option<P>])
+where
+    D: Eq + Ord + Hash + CanonicalOrd<D> + PartialEq<P> + PartialOrd<P> + CanonicalOrd<P> + ComposeRecordData + Sync,
+    P: Eq + Ord + Hash + CanonicalOrd<P> + PartialEq<D> + PartialOrd<D> + CanonicalOrd<D> + Sync,
+{
+    let n = metas.len();
+    let desc = |i: usize| json!({"index": idx[i], "type": metas[i].mnemonic, "rtype": metas[i].rtype, "origin": metas[i].origin, "value": metas[i].desc, "rdata": hex(&metas[i].wire)});
+    let mut hashes = Vec::with_capacity(n);
+    let mut canon_lib: Vec<Vec<u8>> = Vec::with_capacity(n);
+    for i in 0..n {
+        env.stats.eval();
+        let case = || json!({"domain": dom, "items": [desc(i)]});
+        if parsed[i].is_none() {
+            env.stats.count(&format!("{dom}:no-parsed-representation(parser-rejects-reference-rdata):{}", metas[i].mnemonic));
+        }
+        match guard(|| (hrec(&flat[i]), parsed[i].as_ref().map(|p| hrec(p)))) {
+            Ok((h, hp)) => {
+                let hp = hp.unwrap_or_else(|| h.clone());
+                if h.stream != hp.stream {
+                    env.viol(format!("C04|{dom}|representation|hash-input-of-parsed-differs-from-flat|{}", rd_pair_class(metas, i, i)), format!("{} vs {}", hex(&h.stream), hex(&hp.stream)), case());
+                } else if h.shape != hp.shape {
+                    env.viol(format!("C04|{dom}|representation|hasher-calls-of-parsed-differ-from-flat|{}", rd_pair_class(metas, i, i)), metas[i].desc.clone(), case());
+                }
+                env.say(|| format!("{dom}[{}] {} hash input {}", idx[i], metas[i].desc, hex(&h.stream)));
+                hashes.push(h);
+            }
+            Err(e) => {
+                env.viol(format!("C04|{dom}|panic|{}", panic_class(&e)), e, case());
+                hashes.push(Hs::default());
+            }
+        }
+        match compose_canon(&flat[i]) {
+            Ok(c) => {
+                if !metas[i].canon.contains(&c) {
+                    // the form itself is C05's business; here only the order matters
+                    env.stats.count(&format!("{dom}:compose_canonical_rdata-differs-from-rfc-form:{}", metas[i].mnemonic));
+                }
+                env.say(|| format!("{dom}[{}] canonical form {} (RFC: {})", idx[i], hex(&c), hex(&metas[i].canon[0])));
+                canon_lib.push(c);
+            }
+            Err(e) => {
+                env.viol(format!("C04|{dom}|compose_canonical_rdata|panic-or-error|{}", panic_class(&e)), e, case());
+                canon_lib.push(metas[i].canon[0].clone());
+            }
+        }
+    }
+    let mut rel = Rel::new(n);
+    let mut crel = Rel::new(n);
+    let rows: Vec<(Vec<bool>, Vec<i8>, Vec<i8>)> = (0..n)
+        .into_par_iter()
+        .map(|i| {
+            let mut re = vec![false; n];
+            let mut rc = vec![0i8; n];
+            let mut rcc = vec![0i8; n];
+            let mut local: BTreeMap<String, u64> = BTreeMap::new();
+            for j in 0..n {
+                let case = || json!({"domain": dom, "items": [desc(i), desc(j)]});
+                let (x, y, px, py) = (&flat[i], &flat[j], &parsed[i], &parsed[j]);
+                let r = guard(|| RdObs {
+                    eq: x == y,
+                    cmp: sgn(x.cmp(y)),
+                    pcmp: x.partial_cmp(y).map(sgn),
+                    can: sgn(x.canonical_cmp(y)),
+                    pf: px.as_ref().map(|px| (px == y, px.partial_cmp(y).map(sgn), sgn(px.canonical_cmp(y)))),
+                    fp: py.as_ref().map(|py| (x == py, x.partial_cmp(py).map(sgn), sgn(x.canonical_cmp(py)))),
+                    pp: px.as_ref().zip(py.as_ref()).map(|(px, py)| (px == py, px.partial_cmp(py).map(sgn), sgn(px.canonical_cmp(py)), sgn(px.cmp(py)))),
+                });
+                env.stats.eval();
+                if i != j {
+                    env.stats.distinct(mix(dom_id, idx[i], idx[j]));
+                }
+                let o = match r {
+                    Ok(o) => o,
+                    Err(e) => {
+                        env.viol(format!("C04|{dom}|panic|{}", panic_class(&e)), e, case());
+                        continue;
+                    }
+                };
+                env.say(|| format!("{dom}[{}] ? {dom}[{}]: {:?}", idx[i], idx[j], o));
+                re[j] = o.eq;
+                rc[j] = o.cmp;
+                rcc[j] = o.can;
+                let pc = rd_pair_class(metas, i, j);
+                if o.pcmp != Some(o.cmp) {
+                    env.viol(format!("C04|{dom}|partial_cmp-vs-cmp|{pc}"), format!("{o:?}"), case());
+                }
+                let f = (o.eq, o.pcmp, o.can);
+                if o.pf.map(|v| v != f).unwrap_or(false) || o.fp.map(|v| v != f).unwrap_or(false) || o.pp.map(|v| (v.0, v.1, v.2) != f || v.3 != o.cmp).unwrap_or(false) {
+                    env.viol(format!("C04|{dom}|representation|parsed-vs-flat-results-differ|{pc}"), format!("{o:?}"), case());
+                }
+                let (a, b) = (&metas[i], &metas[j]);
+                if a.rtype == b.rtype {
+                    // canonical order == octet order of the canonical forms
+                    let want: Vec<i8> = a.canon.iter().flat_map(|ca| b.canon.iter().map(move |cb| sgn(ca.cmp(cb)))).collect();
+                    if !want.contains(&o.can) {
+                        env.viol(
+                            format!("C04|{dom}|canonical_cmp-vs-rfc4034-canonical-octets|{pc}"),
+                            format!("canonical_cmp = {}, octet order of the canonical forms {} / {} is {}", ord_s(o.can), hex(&a.canon[0]), hex(&b.canon[0]), ord_s(want[0])),
+                            case(),
+                        );
+                    }
+                    let own = sgn(canon_lib[i].cmp(&canon_lib[j]));
+                    if o.can != own {
+                        env.viol(
+                            format!("C04|{dom}|canonical_cmp-vs-own-compose_canonical_rdata-octets|{pc}"),
+                            format!("canonical_cmp = {}, octet order of compose_canonical_rdata outputs {} / {} is {}", ord_s(o.can), hex(&canon_lib[i]), hex(&canon_lib[j]), ord_s(own)),
+                            case(),
+                        );
+                    }
+                    *local.entry(format!("{dom}:canonical-outcome:{}", ord_s(o.can))).or_insert(0) += 1;
+                    // equality does not depend on the case of embedded names
+                    if a.unknown_variant == b.unknown_variant && a.name_lc == b.name_lc {
+                        *local.entry(format!("{dom}:must-be-equal-pairs")).or_insert(0) += 1;
+                        if !o.eq {
+                            env.viol(format!("C04|{dom}|values-differing-only-in-case-of-names-unequal|{pc}"), format!("{} vs {}", hex(&a.wire), hex(&b.wire)), case());
+                        }
+                    } else if o.eq {
+                        if lc(&a.wire) == lc(&b.wire) {
+                            *local.entry(format!("{dom}:equal-with-wire-differing-in-letter-case-only:{}", a.mnemonic)).or_insert(0) += 1;
+                        } else {
+                            *local.entry(format!("{dom}:equal-although-wire-differs-beyond-case:{}", a.mnemonic)).or_insert(0) += 1;
+                        }
+                    }
+                }
+            }
+            env.stats.merge_counts(&local);
+            (re, rc, rcc)
+        })
+        .collect();
+    for (i, (re, rc, rcc)) in rows.into_iter().enumerate() {
+        rel.eq[i * n..(i + 1) * n].copy_from_slice(&re);
+        rel.cmp[i * n..(i + 1) * n].copy_from_slice(&rc);
+        crel.cmp[i * n..(i + 1) * n].copy_from_slice(&rcc);
+    }
+    if n > 3 {
+        env.stats.sample(16, || json!({"domain": dom, "a": desc(n / 3), "b": desc(n / 3 + 1), "eq": rel.e(n / 3, n / 3 + 1), "cmp": ord_s(rel.c(n / 3, n / 3 + 1)), "canonical_cmp": ord_s(crel.c(n / 3, n / 3 + 1))}));
+    }
+    let cls = |i: usize, j: usize| rd_pair_class(metas, i, j);
+    check_laws(env, &LawCfg { dom, ord_name: "cmp", with_eq: true, triples: n <= 1600, desc: &desc, pair_class: &cls, hash_class: &cls }, &rel, Some(&hashes));
+    check_laws(env, &LawCfg { dom, ord_name: "canonical_cmp", with_eq: false, triples: n <= 1600, desc: &desc, pair_class: &cls, hash_class: &cls }, &crel, None);
+}
+
+fn dom_rdata(env: &Env, only: Option<&[usize]>, zone: bool) {
+    let (metas, datas) = rdata_items(env, true);
+    if zone {
+        let mut zm = Vec::new();
+        let mut zd: Vec<ZRd> = Vec::new();
+        let mut zi = Vec::new();
+        for (i, (m, d)) in metas.into_iter().zip(datas).enumerate() {
+            if only.map(|o| !o.contains(&i)).unwrap_or(false) {
+                continue;
+            }
+            let r: Result<ZRd, Rd> = d.into();
+            if let Ok(z) = r {
+                zi.push(i);
+                zm.push(m);
+                zd.push(z);
+            }
+        }
+        let mut parsed: Vec<Option<PZRd>> = Vec::new();
+        let mut keep = Vec::new();
+        for (k, m) in zm.iter().enumerate() {
+            let r = guard(|| {
+                let mut p = Parser::from_ref(m.wire.as_slice());
+                PZRd::parse_rdata(Rtype::from_int(m.rtype), &mut p).ok().flatten().filter(|_| p.remaining() == 0)
+            });
+            match r {
+                Ok(Some(p)) if !m.unknown_variant => {
+                    parsed.push(Some(p));
+                    keep.push(k);
+                }
+                Ok(_) if m.unknown_variant => {
+                    // the opaque variant parsed: through UnknownRecordData
+                    let mut p = Parser::from_ref(m.wire.as_slice());
+                    match UnknownRecordData::parse_any_rdata(Rtype::from_int(m.rtype), &mut p) {
+                        Ok(u) => {
+                            parsed.push(Some(ZoneRecordData::Unknown(u)));
+                            keep.push(k);
+                        }
+                        Err(_) => {
+                            parsed.push(None);
+                            keep.push(k);
+                        }
+                    }
+                }
+                _ => {
+                    parsed.push(None);
+                    keep.push(k);
+                }
+            }
+        }
+        let zm: Vec<RMeta> = keep.iter().map(|&k| zm[k].clone()).collect();
+        let zd: Vec<ZRd> = keep.iter().map(|&k| zd[k].clone()).collect();
+        let zi: Vec<usize> = keep.iter().map(|&k| zi[k]).collect();
+        rdata_domain(env, "zrdata", 6, &zi, &zm, &zd, &parsed);
+    } else {
+        let items = restrict(metas.into_iter().zip(datas).collect::<Vec<_>>(), only);
+        let idx: Vec<usize> = items.iter().map(|x| x.0).collect();
+        let (m, d): (Vec<RMeta>, Vec<Rd>) = items.into_iter().map(|x| x.1).unzip();
+        let mut parsed: Vec<Option<PRd>> = Vec::new();
+        for x in &m {
+            let r = guard(|| {
+                let mut p = Parser::from_ref(x.wire.as_slice());
+                if x.unknown_variant {
+                    UnknownRecordData::parse_any_rdata(Rtype::from_int(x.rtype), &mut p).ok().map(AllRecordData::Unknown)
+                } else {
+                    PRd::parse_any_rdata(Rtype::from_int(x.rtype), &mut p).ok().filter(|_| p.remaining() == 0)
+                }
+            });
+            match r {
+                Ok(p) => parsed.push(p),
+                Err(_) => parsed.push(None),
+            }
+        }
+        rdata_domain(env, "rdata", 5, &idx, &m, &d, &parsed);
+    }
+}
+
+//------------ records ---------------------------------------------------------------
+
+struct RecMeta {
+    data: usize,
+    owner: usize,
+    class: u16,
+    ttl: u32,
+    msg: Vec<u8>,
+}
+
+fn owner_menu() -> Vec<Vec<Vec<u8>>> {
+    vec![vec![b"a".to_vec()], vec![b"A".to_vec()], vec![b"b".to_vec(), b"a".to_vec()]]
+}
+
+#[derive(Debug, Clone, Copy, PartialEq)]
+struct RecObs {
+    eq: bool,
+    cmp: i8,
+    pcmp: Option<i8>,
+    can: i8,
+    pf: Option<(bool, Option<i8>, i8)>,
+    fp: Option<(bool, Option<i8>, i8)>,
+}
+
+fn dom_records(env: &Env, only: Option<&[usize]>) {
+    let dom = "record";
+    let (rm, rd) = rdata_items(env, false);
+    // quick: the compact values; thorough: also their twins
+    let sel: Vec<usize> = (0..rm.len()).filter(|&i| !env.quick || rm[i].origin == "compact").collect();
+    let owners = owner_menu();
+    let classes = [1u16, 3];
+    let ttls = [1u32, 3600];
+    let mut metas_all = Vec::new();
+    for &d in &sel {
+        for o in 0..owners.len() {
+            for c in classes {
+                for t in ttls {
+                    // message: header, question with the owner, one answer whose owner is a pointer to it
+                    let mut m = vec![0u8, 0, 0, 0, 0, 1, 0, 1, 0, 0, 0, 0];
+                    m.extend_from_slice(&name_wire(&owners[o]));
+                    m.extend_from_slice(&rm[d].rtype.to_be_bytes());
+                    m.extend_from_slice(&c.to_be_bytes());
+                    m.extend_from_slice(&ptr(12));
+                    m.extend_from_slice(&rm[d].rtype.to_be_bytes());
+                    m.extend_from_slice(&c.to_be_bytes());
+                    m.extend_from_slice(&t.to_be_bytes());
+                    m.extend_from_slice(&(rm[d].wire.len() as u16).to_be_bytes());
+                    m.extend_from_slice(&rm[d].wire);
+                    metas_all.push(RecMeta { data: d, owner: o, class: c, ttl: t, msg: m });
+                }
+            }
+        }
+    }
+    let items = restrict(metas_all, only);
+    let n = items.len();
+    let desc = |i: usize| {
+        let r = &items[i].1;
+        json!({"index": items[i].0, "owner": owners[r.owner].iter().map(|l| String::from_utf8_lossy(l).to_string()).collect::<Vec<_>>(), "class": r.class, "ttl": r.ttl,
+            "type": rm[r.data].mnemonic, "origin": rm[r.data].origin, "value": rm[r.data].desc, "rdata": hex(&rm[r.data].wire), "message": hex(&r.msg)})
+    };
+    let flat: Vec<Record<Nm, Rd>> = items
+        .iter()
+        .map(|(_, r)| Record::new(Name::from_octets(name_wire(&owners[r.owner])).unwrap(), Class::from_int(r.class), Ttl::from_secs(r.ttl), rd[r.data].clone()))
+        .collect();
+    let mut parsed: Vec<Option<Record<ParsedName<&[u8]>, PRd>>> = Vec::with_capacity(n);
+    for (i, (_, r)) in items.iter().enumerate() {
+        let res = guard(|| -> Result<Record<ParsedName<&[u8]>, PRd>, String> {
+            let mut p = Parser::from_ref(r.msg.as_slice());
+            p.advance(12 + name_wire(&owners[r.owner]).len() + 4).map_err(|e| e.to_string())?;
+            let h = RecordHeader::parse_ref(&mut p).map_err(|e| e.to_string())?;
+            h.parse_into_any_record::<_, PRd>(&mut p).map_err(|e| e.to_string())
+        });
+        match res {
+            Ok(Ok(x)) => parsed.push(Some(x)),
+            _ => {
+                let _ = i;
+                env.stats.count(&format!("record:no-parsed-representation(parser-rejects-reference-rdata):{}", rm[r.data].mnemonic));
+                parsed.push(None);
+            }
+        }
+    }
+    let hashes: Vec<Hs> = (0..n)
+        .map(|i| {
+            env.stats.eval();
+            match guard(|| (hrec(&flat[i]), parsed[i].as_ref().map(|p| hrec(p)))) {
+                Ok((h, hp)) => {
+                    let hp = hp.unwrap_or_else(|| h.clone());
+                    if h.stream != hp.stream {
+                        env.viol("C04|record|representation|hash-input-of-parsed-differs-from-flat".into(), format!("{} vs {}", hex(&h.stream), hex(&hp.stream)), json!({"domain": dom, "items": [desc(i)]}));
+                    }
+                    env.say(|| format!("record[{}] hash input {}", items[i].0, hex(&h.stream)));
+                    h
+                }
+                Err(e) => {
+                    env.viol(format!("C04|record|panic|{}", panic_class(&e)), e, json!({"domain": dom, "items": [desc(i)]}));
+                    Hs::default()
+                }
+            }
+        })
+        .collect();
+    // reference keys
+    let okey: Vec<Vec<Vec<u8>>> = owners.iter().map(|l| l.iter().rev().map(|x| lc(x)).collect()).collect();
+    let full_canon = |r: &RecMeta, rdata: &Vec<u8>| {
+        let mut w = name_wire(&owners[r.owner].iter().map(|x| lc(x)).collect::<Vec<_>>());
+        w.extend_from_slice(&rm[r.data].rtype.to_be_bytes());
+        w.extend_from_slice(&r.class.to_be_bytes());
+        w.extend_from_slice(&r.ttl.to_be_bytes());
+        w.extend_from_slice(&(rdata.len() as u16).to_be_bytes());
+        w.extend_from_slice(rdata);
+        w
+    };
+    let fulls: Vec<Vec<u8>> = items.iter().map(|(_, r)| full_canon(r, &rm[r.data].canon[0])).collect();
+    let mut rel = Rel::new(n);
+    let mut crel = Rel::new(n);
+    let track_pairs = n * n <= 6_000_000;
+    let rows: Vec<(Vec<bool>, Vec<i8>, Vec<i8>)> = (0..n)
+        .into_par_iter()
+        .map(|i| {
+            let mut re = vec![false; n];
+            let mut rc = vec![0i8; n];
+            let mut rcc = vec![0i8; n];
+            let mut local: BTreeMap<String, u64> = BTreeMap::new();
+            let a = &items[i].1;
+            for j in 0..n {
+                let b = &items[j].1;
+                let case = || json!({"domain": dom, "items": [desc(i), desc(j)]});
+                let (x, y, px, py) = (&flat[i], &flat[j], &parsed[i], &parsed[j]);
+                let r = guard(|| RecObs {
+                    eq: x == y,
+                    cmp: sgn(x.cmp(y)),
+                    pcmp: x.partial_cmp(y).map(sgn),
+                    can: sgn(x.canonical_cmp(y)),
+                    pf: px.as_ref().map(|px| (px == y, px.partial_cmp(y).map(sgn), sgn(px.canonical_cmp(y)))),
+                    fp: py.as_ref().map(|py| (x == py, x.partial_cmp(py).map(sgn), sgn(x.canonical_cmp(py)))),
+                });
+                env.stats.eval();
+                if i != j {
+                    if track_pairs {
+                        env.stats.distinct(mix(7, items[i].0, items[j].0));
+                    } else if j == 0 {
+                        env.stats.distinct(mix(7, items[i].0, usize::MAX));
+                    }
+                }
+                let o = match r {
+                    Ok(o) => o,
+                    Err(e) => {
+                        env.viol(format!("C04|record|panic|{}", panic_class(&e)), e, case());
+                        continue;
+                    }
+                };
+                env.say(|| format!("record[{}] ? record[{}]: {:?}", items[i].0, items[j].0, o));
+                re[j] = o.eq;
+                rc[j] = o.cmp;
+                rcc[j] = o.can;
+                if o.pcmp != Some(o.cmp) {
+                    env.viol("C04|record|partial_cmp-vs-cmp".into(), format!("{o:?}"), case());
+                }
+                let f = (o.eq, o.pcmp, o.can);
+                if o.pf.map(|v| v != f).unwrap_or(false) || o.fp.map(|v| v != f).unwrap_or(false) {
+                    env.viol("C04|record|representation|parsed-vs-flat-results-differ".into(), format!("{o:?}"), case());
+                }
+                let (ma, mb) = (&rm[a.data], &rm[b.data]);
+                let owner_eq = okey[a.owner] == okey[b.owner];
+                // records differing only in the case of names are equal
+                if owner_eq && a.class == b.class && a.ttl == b.ttl && ma.rtype == mb.rtype && ma.name_lc == mb.name_lc {
+                    *local.entry("record:must-be-equal-pairs".into()).or_insert(0) += 1;
+                    if !o.eq {
+                        env.viol("C04|record|records-differing-only-in-case-of-names-unequal".into(), format!("{o:?}"), case());
+                    }
+                }
+                // canonical order
+                let rdo = sgn(ma.canon[0].cmp(&mb.canon[0]));
+                let same_rrset = owner_eq && a.class == b.class && ma.rtype == mb.rtype;
+                let accept: Vec<i8> = if same_rrset {
+                    // RFC 4034 6.3: within an RRset, by canonical RDATA
+                    if rdo != 0 {
+                        vec![rdo]
+                    } else {
+                        vec![0, sgn(a.ttl.cmp(&b.ttl))]
+                    }
+                } else {
+                    // across RRsets the RFC defines nothing: accept the
+                    // documented (class, owner, type) order or the octet
+                    // order of the complete canonical forms
+                    let doc = sgn(a.class.cmp(&b.class).then(okey[a.owner].cmp(&okey[b.owner])).then(ma.rtype.cmp(&mb.rtype)));
+                    vec![doc, sgn(fulls[i].cmp(&fulls[j]))]
+                };
+                *local.entry(format!("record:canonical:{}", if same_rrset { "same-rrset" } else { "different-rrset" })).or_insert(0) += 1;
+                if !accept.contains(&o.can) {
+                    env.viol(
+                        format!("C04|record|canonical_cmp-vs-rfc4034-6.3|{}|{}", if same_rrset { "same-rrset" } else { "different-rrset" }, if ma.rtype == mb.rtype { ma.mnemonic.as_str() } else { "cross-type" }),
+                        format!("canonical_cmp = {}, acceptable: {:?}", ord_s(o.can), accept.iter().map(|x| ord_s(*x)).collect::<Vec<_>>()),
+                        case(),
+                    );
+                }
+            }
+            env.stats.merge_counts(&local);
+            (re, rc, rcc)
+        })
+        .collect();
+    for (i, (re, rc, rcc)) in rows.into_iter().enumerate() {
+        rel.eq[i * n..(i + 1) * n].copy_from_slice(&re);
+        rel.cmp[i * n..(i + 1) * n].copy_from_slice(&rc);
+        crel.cmp[i * n..(i + 1) * n].copy_from_slice(&rcc);
+    }
+    if n > 40 {
+        env.stats.sample(20, || json!({"domain": dom, "a": desc(13), "b": desc(14), "eq": rel.e(13, 14), "cmp": ord_s(rel.c(13, 14)), "canonical_cmp": ord_s(crel.c(13, 14)), "hash_inputs": [hex(&hashes[13].stream), hex(&hashes[14].stream)]}));
+    }
+    let cls = |i: usize, j: usize| {
+        let (a, b) = (&items[i].1, &items[j].1);
+        if rm[a.data].rtype == rm[b.data].rtype { rm[a.data].mnemonic.clone() } else { "cross-type".into() }
+    };
+    let hcls = |i: usize, j: usize| {
+        let (a, b) = (&items[i].1, &items[j].1);
+        if a.ttl != b.ttl { "records-with-different-ttl".to_string() } else { format!("records-with-same-ttl|{}", rm[a.data].mnemonic) }
+    };
+    check_laws(env, &LawCfg { dom, ord_name: "cmp", with_eq: true, triples: n <= 1600, desc: &desc, pair_class: &cls, hash_class: &hcls }, &rel, Some(&hashes));
+    check_laws(env, &LawCfg { dom, ord_name: "canonical_cmp", with_eq: false, triples: n <= 1600, desc: &desc, pair_class: &cls, hash_class: &hcls }, &crel, None);
+}
+
+//------------ wide: per type, all pairs of the rgen quick menu (thorough) -------------------
+
+fn dom_wide(env: &Env, only_type: Option<(&str, Vec<u64>)>) {
+    let dom = "rdata-wide";
+    for g in rgen::generators() {
+        if let Some((t, _)) = &only_type {
+            if *t != g.mnemonic {
+                continue;
+            }
+        }
+        let mut vals: Vec<rgen::Value> = Vec::new();
+        g.run(rgen::Tier::Quick, 0, 1, &mut |ev| {
+            if let rgen::Event::Value(v) = ev {
+                vals.push(v)
+            }
+        });
+        if let Some((_, idx)) = &only_type {
+            vals.retain(|v| idx.contains(&v.index));
+        }
+        let n = vals.len();
+        let t = g.mnemonic;
+        let metas: Vec<RMeta> = vals.iter().map(|v| meta_of(v, "quick-menu", v.wire.clone(), false)).collect();
+        let desc = |i: usize| json!({"type": t, "rtype": vals[i].rtype, "candidate": vals[i].index, "value": vals[i].desc, "rdata_len": vals[i].wire.len(), "rdata_head": hex(&vals[i].wire[..vals[i].wire.len().min(48)])});
+        // unary
+        let un: Vec<(Hd, Option<Vec<u8>>)> = (0..n)
+            .into_par_iter()
+            .map(|i| {
+                env.stats.eval();
+                let h = match guard(|| digest(&hrec(&vals[i].data))) {
+                    Ok(h) => h,
+                    Err(e) => {
+                        env.viol(format!("C04|{dom}|panic|{}", panic_class(&e)), e, json!({"domain": dom, "type": t, "items": [desc(i)]}));
+                        Hd { s1: 0, s2: 0, slen: 0, p1: 0 }
+                    }
+                };
+                let c = match compose_canon(&vals[i].data) {
+                    Ok(c) if c == metas[i].canon[0] => None,
+                    Ok(c) => Some(c),
+                    Err(e) => {
+                        env.viol(format!("C04|{dom}|compose_canonical_rdata|panic-or-error|{}", panic_class(&e)), e, json!({"domain": dom, "type": t, "items": [desc(i)]}));
+                        None
+                    }
+                };
+                (h, c)
+            })
+            .collect();
+        let differs = un.iter().filter(|x| x.1.is_some()).count();
+        if differs > 0 {
+            env.stats.count_n(&format!("{dom}:compose_canonical_rdata-differs-from-rfc-form:{t}"), differs as u64);
+        }
+        let canon_lib = |i: usize| un[i].1.as_ref().unwrap_or(&metas[i].canon[0]);
+        // pass 1: all ordered pairs; rank for the total-preorder test
+        let rank: Vec<usize> = (0..n)
+            .into_par_iter()
+            .map(|i| {
+                let mut smaller = 0usize;
+                let mut outcomes = [0u64; 3];
+                let x = &vals[i].data;
+                for j in 0..n {
+                    let y = &vals[j].data;
+                    let case = || json!({"domain": dom, "type": t, "candidates": [vals[i].index, vals[j].index], "items": [desc(i), desc(j)]});
+                    let r = guard(|| ((x == y, sgn(x.cmp(y)), x.partial_cmp(y).map(sgn), sgn(x.canonical_cmp(y))), (y == x, sgn(y.cmp(x)), sgn(y.canonical_cmp(x)))));
+                    let ((eq, cmp, pcmp, can), (req, rcmp, rcan)) = match r {
+                        Ok(o) => o,
+                        Err(e) => {
+                            env.viol(format!("C04|{dom}|panic|{}", panic_class(&e)), e, case());
+                            continue;
+                        }
+                    };
+                    if cmp > 0 {
+                        smaller += 1;
+                    }
+                    outcomes[(can + 1) as usize] += 1;
+                    if eq != req {
+                        env.viol(format!("C04|{dom}|eq-not-symmetric|{t}"), format!("a == b is {eq}, b == a is {req}"), case());
+                    }
+                    if cmp != -rcmp {
+                        env.viol(format!("C04|{dom}|cmp-not-antisymmetric|{t}"), format!("{} vs {}", ord_s(cmp), ord_s(rcmp)), case());
+                    }
+                    if can != -rcan {
+                        env.viol(format!("C04|{dom}|canonical_cmp-not-antisymmetric|{t}"), format!("{} vs {}", ord_s(can), ord_s(rcan)), case());
+                    }
+                    if eq != (cmp == 0) {
+                        let k = if eq { format!("eq-but-cmp-{}", ord_s(cmp)) } else { "cmp-equal-but-ne".into() };
+                        env.viol(format!("C04|{dom}|eq-iff-cmp-equal|{k}|{t}"), format!("a == b is {eq}, cmp is {}", ord_s(cmp)), case());
+                    }
+                    if pcmp != Some(cmp) {
+                        env.viol(format!("C04|{dom}|partial_cmp-vs-cmp|{t}"), format!("{pcmp:?} vs {}", ord_s(cmp)), case());
+                    }
+                    if eq && un[i].0 != un[j].0 {
+                        env.viol(format!("C04|{dom}|eq-implies-hash|hash-input-differs|{t}"), "a == b but the recorded hash inputs differ".into(), case());
+                    }
+                    let want = sgn(metas[i].canon[0].cmp(&metas[j].canon[0]));
+                    if can != want {
+                        env.viol(format!("C04|{dom}|canonical_cmp-vs-rfc4034-canonical-octets|{t}"), format!("canonical_cmp = {}, octet order of the canonical forms is {}", ord_s(can), ord_s(want)), case());
+                    }
+                    let own = sgn(canon_lib(i).cmp(canon_lib(j)));
+                    if can != own {
+                        env.viol(format!("C04|{dom}|canonical_cmp-vs-own-compose_canonical_rdata-octets|{t}"), format!("canonical_cmp = {}, octet order of compose_canonical_rdata outputs is {}", ord_s(can), ord_s(own)), case());
+                    }
+                    if metas[i].name_lc == metas[j].name_lc && !eq {
+                        env.viol(format!("C04|{dom}|values-differing-only-in-case-of-names-unequal|{t}"), "".into(), case());
+                    }
+                }
+                env.stats.evaluations.fetch_add(n as u64, AO::Relaxed);
+                env.stats.distinct(mix(8, g.rtype as usize, vals[i].index as usize));
+                let mut m = BTreeMap::new();
+                for (k, s) in [(0, "Less"), (1, "Equal"), (2, "Greater")] {
+                    m.insert(format!("{dom}:canonical-outcome:{s}"), outcomes[k]);
+                }
+                env.stats.merge_counts(&m);
+                smaller
+            })
+            .collect();
+        // pass 2: cmp is a total preorder iff it agrees with the ranks
+        (0..n).into_par_iter().for_each(|i| {
+            for j in 0..n {
+                let c = match guard(|| sgn(vals[i].data.cmp(&vals[j].data))) {
+                    Ok(c) => c,
+                    Err(_) => continue,
+                };
+                let want = (rank[i] as i64 - rank[j] as i64).signum() as i8;
+                if c != want {
+                    env.viol(
+                        format!("C04|{dom}|cmp-not-a-total-preorder|{t}"),
+                        format!("cmp = {} but a has {} smaller values and b has {}", ord_s(c), rank[i], rank[j]),
+                        json!({"domain": dom, "type": t, "candidates": [vals[i].index, vals[j].index], "items": [desc(i), desc(j)]}),
+                    );
+                }
+            }
+        });
+        env.stats.count_n(&format!("{dom}:values:{t}"), n as u64);
+        env.stats.count_n(&format!("{dom}:pairs"), (n * n) as u64);
+        if n > 1 {
+            env.stats.sample(40, || json!({"domain": dom, "type": t, "values": n, "ordered_pairs": n * n, "first": desc(0), "last": desc(n - 1)}));
+        }
+    }
+}
+
+//------------ main ----------------------------------------------------------------------
+
 fn main() {
-    let (v, st) = rgen::values_ex(rgen::Tier::Quick);
-    println!("{} values", v.len());
-    println!("{:?}", st.generated);
-    let tot: usize = v.iter().map(|x| x.wire.len()).sum();
-    println!("total wire {}", tot);
-    let s: u64 = st.generated.values().map(|n| n*n).sum();
-    println!("sum n^2 = {}", s);
+    let ctx = Ctx::new("C04", "exploration");
+    let mut quick = ctx.quick();
+    let mut replay: Option<Value> = None;
+    if let Some(path) = &ctx.replay {
+        let text = std::fs::read_to_string(path).unwrap_or_else(|e| {
+            eprintln!("MACHINERY: cannot read replay file {path}: {e}");
+            std::process::exit(2);
+        });
+        let v: Value = serde_json::from_str(&text).unwrap_or_else(|e| {
+            eprintln!("MACHINERY: bad replay file {path}: {e}");
+            std::process::exit(2);
+        });
+        let case = v["case"].clone();
+        quick = case["tier"].as_str() != Some("thorough");
+        println!("replaying {} ({})", v["signature"], v["what"]);
+        replay = Some(case);
+    }
+    let env = Env { ctx: ctx.clone(), stats: Stats::new(), quick, verbose: replay.is_some(), triples: AtomicU64::new(0) };
+    let t0 = std::time::Instant::now();
+    let mut phases: Vec<(String, f64)> = Vec::new();
+    let mut phase = |name: &str, f: &mut dyn FnMut()| {
+        let t = std::time::Instant::now();
+        f();
+        phases.push((name.to_string(), (t.elapsed().as_secs_f64() * 100.0).round() / 100.0));
+    };
+    if let Some(case) = &replay {
+        let idx: Vec<usize> = case["items"].as_array().map(|a| a.iter().filter_map(|x| x["index"].as_u64()).map(|x| x as usize).collect()).unwrap_or_default();
+        match case["domain"].as_str().unwrap_or("") {
+            "label" => dom_labels(&env, Some(&idx)),
+            "charstr" => dom_charstrs(&env, Some(&idx)),
+            "name" | "name-flat" => {
+                let depth = case["items"][0]["depth"].as_u64().unwrap_or(3) as usize;
+                dom_names(&env, depth, true, 3, Some(&idx))
+            }
+            "rdata" => dom_rdata(&env, Some(&idx), false),
+            "zrdata" => dom_rdata(&env, Some(&idx), true),
+            "record" => dom_records(&env, Some(&idx)),
+            "rdata-wide" => {
+                let c: Vec<u64> = case["candidates"].as_array().map(|a| a.iter().filter_map(|x| x.as_u64()).collect()).unwrap_or_default();
+                dom_wide(&env, Some((case["type"].as_str().unwrap_or(""), c)))
+            }
+            d => {
+                eprintln!("MACHINERY: unknown domain {d:?} in replay file");
+                std::process::exit(2);
+            }
+        }
+    } else {
+        phase("labels", &mut || dom_labels(&env, None));
+        phase("charstrs", &mut || dom_charstrs(&env, None));
+        phase("names-depth3", &mut || dom_names(&env, 3, true, 3, None));
+        if !quick {
+            phase("names-depth4", &mut || dom_names(&env, 4, false, 4, None));
+        }
+        phase("rdata", &mut || dom_rdata(&env, None, false));
+        phase("zrdata", &mut || dom_rdata(&env, None, true));
+        phase("records", &mut || dom_records(&env, None));
+        if !quick {
+            phase("rdata-wide", &mut || dom_wide(&env, None));
+        }
+    }
+    let _ = t0;
+    let counters = env.stats.counters_json();
+    ctx.finish(
+        json!({
+            "evaluations": env.stats.evals(),
+            "distinct_nontrivial": env.stats.distinct_count(),
+            "rule": "a case is an ordered pair (a, b) of items of one domain, evaluated with every comparison/equality/hash operation the types offer; non-trivial = a and b are different items (different octets, representation or field values). Pairs are keyed by (domain, index a, index b) in Stats::distinct; for domains above 6e6 ordered pairs (names depth 4, thorough records) and for rdata-wide one key per left item is stored and the pair count is reported in counters",
+            "exhaustive": true,
+            "triples_checked_on_observed_relations": env.triples.load(AO::Relaxed),
+            "bounds": {
+                "alphabet": ALPHA.iter().map(|b| format!("{b:02x}")).collect::<Vec<_>>(),
+                "label_and_charstr_max_len": if quick { 2 } else { 3 },
+                "name_depth": if quick { 3 } else { 4 },
+                "name_label_menu": ["a", "A", "b", "a.b (one label)", "ab"],
+                "owners": ["a.", "A.", "b.a."], "classes": [1, 3], "ttls": [1, 3600],
+                "rdata": if quick { "rgen compact values + name-case twins + letter-case twins + Unknown-variant twins; records over compact values" } else { "as quick, records also over the twins; plus per type all ordered pairs of the rgen quick menu" },
+            },
+            "phase_seconds": phases.iter().map(|(k, v)| json!({"phase": k, "s": v})).collect::<Vec<_>>(),
+            "counters": counters,
+            "samples": env.stats.samples(),
+        }),
+        &[
+            "labels longer than 3 (except 62/63), names deeper than 4 and RDATA values off the rgen menus are not covered (DESIGN C04 L.)",
+            "RFC 4034 6.3 orders records only within one RRset; across RRsets the documented (class, owner, type, RDATA) order or the octet order of the complete canonical forms is accepted, and equal-RDATA records that differ in TTL may compare Equal or by TTL",
+            "equality of record data is the library's choice between 'wire equal up to the case of embedded names' (must be equal) and anything coarser; only its coherence with cmp and Hash is demanded",
+            "RelativeName, RecordHeader, ParsedRecord and Question are not enumerated; Chain has no Eq/Ord/Hash impls and is exercised through name_eq/name_cmp and as right-hand side of Name/ParsedName operators",
+            "in rdata-wide the hash inputs (up to 64 KiB each) are compared through a 2x64-bit digest plus lengths of the recorded stream",
+        ],
+    );
 }
